@@ -187,6 +187,11 @@ def run_item(item):
                 if r < 0.05:
                     b = b + b'\r'
                     c = 'crlf'
+                    if rng.random() < 0.4 and b'\x1b' not in b:
+                        # coloured by its producer, the closing sequence after the CR (as git does for CRLF files): only the
+                        # CR goes
+                        b = b'\x1b[33m' + b[:-1] + b'\r\x1b[m'
+                        c = 'crlf-coloured'
                 elif r < 0.09:
                     b = b[:len(b) // 2] + rng.choice([b'\xff', b'\xc3', b'\xe2\x82']) + b[len(b) // 2:]
                     c = 'invalid-utf8'
@@ -336,6 +341,8 @@ def expected_bytes(b, cl, mll):
     e = b
     if e.endswith(b'\r'):
         e = e[:-1]
+    if cl == 'crlf-coloured':
+        e = e.replace(b'\r\x1b[m', b'\x1b[m')
     if cl == 'invalid-utf8':
         e = e.decode('utf-8', 'replace').encode('utf-8')
     return e
